@@ -80,7 +80,7 @@ def check_expr(ctx, matcher_mod, ast, texts, projs, msgs, lines):
     for t in texts:
         ctx.ev()
         kind, res = evaluate(matcher_mod, t, msgs)
-        case = {'text': t, 'ast': ast, 'lines': lines}
+        case = {'text': t, 'ast': ast, 'lines': lines, 'ref': ref}
         if kind == 'rejected':
             ctx.count('rejected')
             ctx.violation('rejected', 'documented-grammar expression %r rejected: %s' % (t, res), case, reason=res)
@@ -102,7 +102,7 @@ def check_expr(ctx, matcher_mod, ast, texts, projs, msgs, lines):
         if r is not None and results[0] is not None and r != results[0]:
             i = next(i for i in range(len(r)) if r[i] != results[0][i])
             ctx.violation('rendering-variance', 'renderings %r and %r of one expression differ on message %d %r' % (texts[0], t, i, lines[i][:160]),
-                          {'text': t, 'text0': texts[0], 'ast': ast, 'lines': lines, 'message_index': i})
+                          {'text': t, 'text0': texts[0], 'ast': ast, 'lines': lines, 'message_index': i, 'ref': ref})
             break
     return n_def, n_true, len(projs)
 
@@ -184,6 +184,13 @@ def replay(ctx, case):
             print(key, repr(case[key]), kind, res if kind != 'ok' else ('selects %d of %d' % (sum(res), len(res))))
             if kind == 'ok' and 'message_index' in case:
                 print('   message', case['message_index'], case['lines'][case['message_index']], '->', res[case['message_index']])
+            ctx.ev()
+            if kind != 'ok':
+                ctx.violation('rejected' if kind == 'rejected' else 'matcher-crash', '%r: %s' % (case[key], res), case)
+            elif case.get('ref') and len(case['ref']) == len(res):
+                bad = [i for i, (r, g) in enumerate(zip(case['ref'], res)) if r is not None and r != g]
+                if bad:
+                    ctx.violation('selection', '%r: selection differs from the stored reference at messages %r' % (case[key], bad[:8]), case)
             try:
                 print('   simplified:', repr(matcher_mod.parse(case[key]).simplify()))
             except Exception as e:
